@@ -272,6 +272,12 @@ m('rc-encoder-norm-off-by-one', 'C01', 'RC-NORM-TWIN', 'src/enc/range_enc.rs', "
     pub(crate) fn encode_bit_tree""", 'RangeEncoder::encode_bit:normalises-like')
 m('decode-without-final-normalize', 'C16', 'NORMALIZE-AT-END', 'src/decoder.rs', "        rc.normalize();\n        Ok(())", "        Ok(())", 'LZMADecoder::decode:Ok-only-after-normalize')
 
+m('xzreader-declared-compressed-size-unchecked', 'C04', 'GUARD-COMPARE', 'src/xz/reader.rs',
+  """                    if declared_compressed.is_some_and(|size| size != compressed)
+                        || declared_uncompressed.is_some_and(|size| size != self.block_uncompressed_read)""",
+  """                    let _ = (declared_compressed, compressed);
+                    if declared_uncompressed.is_some_and(|size| size != self.block_uncompressed_read)""", 'BlockHeader.compressed_size')
+
 M = [x for x in M if x['old'] is not None]
 
 
